@@ -479,6 +479,29 @@ def file_assembly(run, repo):
                 run.check(sorted(fields) == sorted(['units', 'phases', 'species', 'reactions', 'beps', 'interactions']),
                           'TABLE.sections', 'io.omkm.write_thermo_yaml', 'sections',
                           '[%s] sections dumped: %s' % (label, fields), m, fn)
+        # the temperature the file is written for is the temperature every reaction is evaluated at (its barrier is
+        # a Gibbs energy): the reaction emitters are handed exactly the writer's T
+        I = new_interp(repo)
+        Tw = I.D.sym('T_file')
+        rx3 = [marker_obj(I, 'rxn%d' % i, id=None, bep=None) for i in range(2)]
+        seen_T = []
+        for r3 in rx3:
+            for meth in ('to_cti', 'to_omkm_yaml'):
+                def emit3(I_, obj, a_, k_, f_=r3.opaque_methods[meth]):
+                    seen_T.append(k_.get('T', a_[0] if a_ else None))
+                    return f_(I_, obj, a_, k_)
+                r3.opaque_methods[meth] = emit3
+                # the documented signature of the reaction emitters
+                r3.opaque_params[meth] = ('T', 'P', 'quantity_unit', 'length_unit', 'act_energy_unit',
+                                          'ads_act_method', 'units')
+        out3 = I.call_function(m, fn, [], {'reactions': ListV(rx3), 'T': Tw, 'units': units_obj(I, repo)})
+        run.check(not isinstance(out3, Raised) and len(seen_T) == 2 and
+                  all(isinstance(t_, Rat) and t_.eq(Tw) for t_ in seen_T), 'DATAFLOW.option', 'io.omkm.' + writer,
+                  'T reaches the reactions',
+                  '%s(reactions=[r0, r1], T=T_file): the reactions are emitted for T=%s, expected T_file for each (the '
+                  'activation energies in the file belong to the temperature the user asked for)'
+                  % (writer, show(out3, 60) if isinstance(out3, Raised) else [show(t_, 30) for t_ in seen_T]), m, fn,
+                  sample='%s(T=T_file) -> every reaction emitter receives T=T_file' % writer)
         # omitted collections: no crash
         I = new_interp(repo)
         out = I.call_function(m, fn, [], {})
@@ -531,6 +554,50 @@ def phases_independent(run, repo):
             run.check(ok, 'EFFECT.membership', cname, 'add via ' + how,
                       'species added through the %s are not listed once by the phase with their .phase pointing at it'
                       % how, o2.module, f2)
+        # a sequence of additions and removals on a phase that already has species, a second phase being filled in
+        # between: after every step the phase lists exactly the expected species in order, each pointing at it, and
+        # its element set is the union over them
+        if all(repo.find_method(ci, h_, missing_ok=True) for h_ in ('extend_species', 'append_species',
+                                                                      'remove_species', 'pop_species')):
+            I = new_interp(repo)
+            fr = Frame(I, repo.module('pmutt'), {}, None, None)
+            mk = lambda n_, el: Obj(n_, attrs={'name': n_, 'elements': DictV({el: C(1)}), 'phase': None})
+            S = {n_: mk(n_, el) for n_, el in (('A', 'H'), ('B', 'O'), ('Cc', 'N'), ('D', 'Pt'), ('E', 'C'),
+                                               ('X', 'Ar'), ('Y', 'He'))}
+            p = fr.apply(ci, [], {'name': 'p', 'species': ListV([S['A']])}, None)
+            q_ = fr.apply(ci, [], {'name': 'q', 'species': ListV([S['X']])}, None)
+            steps = (('extend_species', p, {'val': ListV([S['B'], S['Cc']])}, ['A', 'B', 'Cc'], ['X']),
+                     ('extend_species', q_, {'val': ListV([S['Y']])}, ['A', 'B', 'Cc'], ['X', 'Y']),
+                     ('append_species', p, {'val': S['D']}, ['A', 'B', 'Cc', 'D'], ['X', 'Y']),
+                     ('remove_species', p, {'name': 'B'}, ['A', 'Cc', 'D'], ['X', 'Y']),
+                     ('extend_species', p, {'val': ListV([S['E']])}, ['A', 'Cc', 'D', 'E'], ['X', 'Y']),
+                     ('pop_species', p, {'i': C(0)}, ['Cc', 'D', 'E'], ['X', 'Y']),
+                     ('append_species', p, {'val': S['B']}, ['Cc', 'D', 'E', 'B'], ['X', 'Y']))
+            done = ['%s([A])' % ci.name]
+            for how, target, kw_, want_p, want_q in steps:
+                r_ = I.call_method(target, how, [], kw_)
+                arg_ = list(kw_.values())[0]
+                done.append('%s.%s(%s)' % ('p' if target is p else 'q', how,
+                                           [x.name for x in arg_.items] if isinstance(arg_, ListV)
+                                           else getattr(arg_, 'name', show(arg_, 10))))
+                ok = not isinstance(r_, Raised)
+                state = {}
+                for ph_, want_, nm_ in ((p, want_p, 'p'), (q_, want_q, 'q')):
+                    got = get_public(I, ph_, 'species')
+                    els = get_public(I, ph_, 'elements')
+                    names_ = [getattr(x, 'name', x) for x in got.items] if isinstance(got, ListV) else None
+                    state[nm_] = names_
+                    want_els = sorted(list(S[n_].attrs['elements'].d)[0] for n_ in want_)
+                    ok = ok and names_ == want_ and all(S[n_].attrs.get('phase') is ph_ for n_ in want_) and \
+                        isinstance(els, ListV) and sorted(I.plain(x) for x in els.items) == want_els
+                o2, f2 = repo.find_method(ci, how)
+                run.check(ok, 'EFFECT.membership', cname, 'sequence step %d: %s' % (len(done) - 1, how),
+                          'after %s the phase p lists %s and q lists %s; expected %s and %s, every listed species '
+                          'pointing at its phase, the element sets following'
+                          % (' -> '.join(done), state.get('p'), state.get('q'), want_p, want_q), o2.module, f2,
+                          sample='%s: %s' % (cname, ' -> '.join(done)) if how == 'pop_species' else None)
+                if not ok:
+                    break
         # removals, on two coexisting phases: the phase lists exactly what is left, in order, its element set follows,
         # and the other phase is untouched
         for how in ('remove_species', 'pop_species', 'clear_species'):
